@@ -239,7 +239,8 @@ def snip_bytes(b):
 HOSTILE = list("+-#,[]{}'\"=<>!^|&~@$?`;:\\.\t\n\r\x0b\x0c\x00 ") + [" ", " ", "é", "×", "·", "²", "½", "Ω", "Å", "Δ", "﻿", "//", "==", "e", "E", "j", "_", "0x", "°", "%", "µ", "μ", "Ω", "Å"]
 TOKENS = ["*", "**", "/", "(", ")", "-", "+", " ", "sqrt", "sqrt(", "1", "2", "0", "-1", "0.5", "1.5", "(1/2)", "(-1/3)", "1e3", "1e-3", ".5", "2.",
           "m", "s", "kg", "K", "degC", "lat", "%", "°C", "µm", "Ω", "dimensionless", "in", "as", "Integer", "Symbol", "Rational", "Float", "Integer(2)",
-          "#", ",", "[", "]", "'m'", "==", "\n", "\t", "lambda", "None", "__import__", "9**9", "1_0", "0x1f", "1j", "zz", "e"]
+          "#", ",", "[", "]", "'m'", "==", "\n", "\t", "lambda", "None", "__import__", "9**9", "1_0", "0x1f", "1j", "zz", "e",
+          ".", ".args", ".func", ".exp", ".base", ".subs(", ".is_positive", "=", "evaluate=1", "[0]", "[5]", "{}", "//0", "//", "{", "}", ":"]
 
 
 def fmt_exp(rng, q, style=None):
@@ -373,6 +374,90 @@ class Grammar:
         return out
 
 
+SYMPY_ATTRS = ["args", "func", "exp", "base", "name", "is_positive", "is_Symbol", "free_symbols", "p", "q", "real", "assumptions0"]
+SYMPY_METHODS = ["as_coeff_Mul()", "as_numer_denom()", "as_base_exp()", "as_powers_dict()", "simplify()", "expand()", "doit()", "evalf()",
+                 "n()", "copy()", "subs({a}, {b})", "replace({a}, {b})", "xreplace({{{a}: {b}}})", "func({a})", "func({a}, {b})", "as_coeff_mul()",
+                 "together()", "cancel()", "factor()", "powsimp()", "as_independent({a})", "atoms()", "as_ordered_factors()", "sort_key()"]
+
+
+def outside_vocabulary(rng, G, n):
+    """texts that use Python syntax beyond the unit vocabulary and would be VALID expressions if that
+    syntax were evaluated: attribute access and method calls on names and parenthesised unit
+    expressions (real sympy attribute names), keyword arguments to sqrt, subscripts of well-formed
+    containers.  Every production once with fixed operands (seed-independent), then `n` random ones."""
+
+    def operand(fixed):
+        if fixed:
+            return "m", "(g*cm)", "(m**3)", "km", "s"
+        e = G.expr(1)
+        return G.name() if G.rng.random() < 0.5 else "m", f"({e})", f"({G.name()}**{rng.randint(2, 4)})", rng.choice(G.atoms), rng.choice(G.atoms)
+
+    out = []
+
+    def productions(fixed):
+        nm, par, pw, a, b = operand(fixed)
+        res = []
+        for base in (nm, par, pw):
+            for at in SYMPY_ATTRS:
+                res.append(f"{base}.{at}")
+                res.append(f"{base}.{at}*{b}")
+                res.append(f"{b}*{base}.{at}.real" if at.startswith("is_") else f"{base}.{at}[0]")
+            for me in SYMPY_METHODS:
+                call = me.format(a=a, b=b)
+                res.append(f"{base}.{call}")
+                res.append(f"{base}.{call}[0]")
+                res.append(f"{base}.{call}*{b}")
+            res.append(f"{base}.func('{a}')")
+            res.append(f"{base} . args [ 0 ]")
+        for kw in ("evaluate=1", "evaluate=0", "evaluate=True", "evaluate = 1"):
+            res.append(f"sqrt({a}, {kw})")
+            res.append(f"sqrt({par},{kw})*{b}")
+            res.append(f"sqrt(arg={a})")
+        for i in (0, 1, -1):
+            res.append(f"({a},{b})[{i}]")
+            res.append(f"[{a},{b}][{i}]*{b}")
+            res.append(f"{{1:{a}}}[1]")
+        return res
+
+    out += productions(True)
+    while len(out) < len(productions(True)) + n:
+        out.append(rng.choice(productions(False)))
+    return out
+
+
+def evaluator_faults(rng, G, n):
+    """texts that tokenize and compile but whose EVALUATION fails, in exception families of every
+    kind (LookupError, ArithmeticError, RecursionError, OverflowError, ValueError, TypeError …):
+    every production once with fixed operands, then `n` random ones"""
+
+    def productions(fixed):
+        a, b = ("g", "cm") if fixed else (G.name(), G.name())
+        e = "g*cm**2/s" if fixed else G.expr(1)
+        k = 2 if fixed else rng.randint(2, 9)
+        big = 5000 if fixed else rng.randint(3000, 7000)
+        res = [
+            # subscripts on empty / short literal containers, dict look-ups
+            "[][0]", f"[{a}][{k}]", f"({a},{b})[{k}]", f"({a},)[{k}]", f"''[{k}]", f"'{a}'[{k + 5}]", "()[0]", f"{{}}[{a}]", f"{{{a}:1}}[{b}]",
+            f"{{1:{a}}}[{k}]", f"{e}*[{a}][{k}]", f"[][{a}]", f"({a},{b})[{a}]",
+            # integer floor division by zero, numbers the constructors reject
+            "1//0", f"{k}//0", f"{e}//0*1//0", f"{k}//(1-1)", f"({k}//0)*{a}", f"Rational('1/0')*{a}", f"Rational('{k}/0')", f"Integer({k})//Integer(0)",
+            f"Integer('{a}')", "Float('')", f"Rational('{a}/{b}')", f"Integer({k}.5//0)",
+            # index-sized / overflow errors
+            f"'{a}'*10**30", f"[0]*10**{20 + k}", f"({a},)*10**25", f"'{a}'*-10**30*10**30",
+            # operator chains deeper than the compiler accepts
+            a + f"*{a}" * big, "-" * (big // 2 + 500) + a, a + "**1" * big, "+" * big + a, a + f"/{b}" * big,
+            # attribute / call errors of the evaluator itself
+            f"{a}()", f"{k}({a})", f"sqrt()", f"sqrt({a})({b})", f"({a},{b})*{a}", f"[{a}]*{b}", f"{{}}*{a}", f"{a}**[{k}]", f"{a}**()", f"sqrt([{a}])",
+        ]
+        return res
+
+    out = productions(True)
+    base = len(out)
+    while len(out) < base + n:
+        out.append(rng.choice(productions(False)))
+    return out
+
+
 UNICODE_PAIRS = [("µm", "um"), ("μm", "um"), ("µm", "μm"), ("µs", "us"), ("μF", "uF"), ("Ω", "ohm"), ("kΩ", "kohm"), ("Å", "angstrom"),
                  ("°", "deg"), ("°", "degree"), ("°C", "degC"), ("°F", "degF"), ("%", "percent"), ("m°C", "mdegC"), ("Ω*m", "ohm*m"),
                  ("µm/Ω**2", "um/ohm**2"), ("Å**-1", "1/angstrom"), ("°**2", "deg**2"),
@@ -478,7 +563,7 @@ PROBES = [
     "m+m", "m-m", "m+s", "2+3", "m+s-s", "m#foo", "m # foo", "Symbol('m')", "Integer(2)*m", "Rational(1,2)*m", "Float(2)*m", "Float('2.5')*m",
     "sqrt(m,)", "sqrt(m,s)", "m*[1][0]", "m*(1,2)[0]", "m*-(1==1)", "m*\\\ns", "2//1*m", "m<s", "m==s", "m,s", "[m]", "m@s", "~m", "m^s", "2^3", "m|s",
     "'m'", "\"m\"", "sqrt('4')", "abs(-2)*m", "__import__('os')", "().__class__", "m.name", "exp(0)*m", "len('ab')*m", "print(1)", "open('x')",
-    "Symbol('')", "m if 1 else s", "not m", "m or s", "lambda: m", "m;s", "m:s", "m=s", "m$", "m!", "m?", "m`",
+    "Symbol('')", "10**5000+m", "1e9999999991j*m", "1j*9**9**9**9", "1j**9**9**9**9", "2.5J*m", "m if 1 else s", "not m", "m or s", "lambda: m", "m;s", "m:s", "m=s", "m$", "m!", "m?", "m`",
     # resource probes
     "(-8)**sqrt(1/3)", "2**sqrt(-2)", "m**sqrt(-2)", "m**sqrt(2)", "km**sqrt(-1)",
     "9**9**9**9", "m**9**9**9", "1e999999999*m", "1e-999999999*m", "0/0", "1/0", "1/(1/0)", "10**5000*m",
@@ -553,6 +638,10 @@ def run(tier, seed):
         else:
             n = rng.randint(1, 12)
             strings.append(("malformed", "".join(rng.choice(HOSTILE + TOKENS) for _ in range(n))))
+    for t in outside_vocabulary(rng, G, 300 if quick else 6000):
+        strings.append(("outside-vocabulary", t))
+    for t in evaluator_faults(rng, G, 150 if quick else 3000):
+        strings.append(("evaluator-fault", t))
     byte_cases = [mutate_bytes(rng, rng.choice(valid)) for _ in range(n_bytes)] + [[0xFF], [0x6D, 0xC3], list("m*s".encode()), list("µm".encode("utf-8"))]
 
     # ------------------------------------------------------------------ the real library, under the watchdog
@@ -590,7 +679,8 @@ def run(tier, seed):
         elif r == "died":
             chk.fail("died", f"Unit({s!r}) killed the interpreter", {"python": snip_hang(s), "text": s})
         elif r == "exc":
-            key = f"escape|{rep['exc']}|{rep['trig']}" if voc is None else "escape|outside-vocabulary"
+            key = (f"escape|{rep['exc']}|{rep['trig']}" if voc is None
+                   else f"escape|outside-vocabulary|{rep['exc']}|{rep.get('phase', 'unit-data')}")
             chk.fail(key, f"Unit({s!r}) raised {rep['exc']}, not UnitParseError", {"python": snip_total(s), "text": s})
         elif r == "ok":
             if voc is not None:
@@ -609,6 +699,13 @@ def run(tier, seed):
             continue
         if m[0] == "err" and m[1] == "unmodelled":
             chk.count("unmodelled-skipped")
+            continue
+        if m[0] == "err" and m[1] == "outOfVocabulary":
+            # the model is the specification here, not a model of the code: it only says the text is outside
+            # the vocabulary.  Checked: Python's own tokenizer agrees, or the code refuses the text anyway.
+            chk.count("model-out-of-vocabulary(spec, not compared)")
+            if voc is None and r != "upe":
+                chk.disagree("c20.parse", f"{s!r}: the model calls it outside the vocabulary, the tokenizer-based classifier does not, implementation {r}")
             continue
         if voc is not None:
             # outside the vocabulary: the model must refuse; the code's acceptance is the finding above
@@ -660,6 +757,8 @@ def run(tier, seed):
         elif r == "exc":
             chk.fail(f"escape|{rep['exc']}|{rep['trig']}", f"Unit({bytes(b)!r}) raised {rep['exc']}, not UnitParseError", {"python": snip_bytes(b)})
         voc = rep.get("vocab")
+        if m[0] == "err" and len(m) > 1 and m[1] == "outOfVocabulary":
+            m = ["err", "UnitParseError"] if (voc is None) else m
         if r == "ok" and voc is not None:
             chk.fail(f"vocab|{voc}", f"Unit({bytes(b)!r}) accepted text outside the unit vocabulary ({voc})", {"python": snip_bytes(b).replace("    Unit(b)\n", "    u = Unit(b)\n    raise AssertionError(('accepted', b, u))\n")})
         if m[0] == "driver-failed" or (m[0] == "err" and m[1] == "unmodelled"):
@@ -775,7 +874,7 @@ def run(tier, seed):
                 if model_same != real_same:
                     chk.disagree("c20.print", f"{progs[k]}: re-parse of {which} {rep[which]!r}: model {m[j]} (want {want}) implementation {rep['rt_' + which]}")
         else:
-            chk.count("model:c20.layout")
+            chk.count("model-only:c20.layout(lexer/evaluator self-consistency, not a tie to the code)")
             if m[0] != "ok" or m[1] != want or (m[2] != want and not m[2].startswith("err|unmodelled")) or m[3] != "1":
                 chk.disagree("c20.layout", f"{progs[k]}: layout round trip broken in the model: {m} (want {want})")
 
@@ -824,7 +923,7 @@ def run(tier, seed):
                 continue
             if vd.startswith("raises:"):
                 want = "UnitParseError" if vd == "raises:UnitParseError" else vd[7:]
-                if not (m[0] == "err" and m[1] == want):
+                if not (m[0] == "err" and (m[1] == want or (want == "UnitParseError" and m[1] == "outOfVocabulary"))):
                     chk.disagree("c20.parse(spelling)", f"{text!r}: implementation {vd}, model {m[:3]}")
                 continue
             if rx is None or m[0] != "ok" or model_expr(m) != real_expr(rx):
